@@ -98,7 +98,19 @@ func (m *MonC15) OnStepEnd(w *World, step int) {
 	if json.Valid([]byte(op.P)) {
 		m.nontriv = true
 	}
-	contain := strings.HasPrefix(class, "event/") || strings.HasPrefix(class, "query/") || strings.HasPrefix(class, "refetch/") || strings.HasPrefix(class, "system/")
+	contain := strings.HasPrefix(class, "event/") || strings.HasPrefix(class, "query/") || strings.HasPrefix(class, "refetch/") || strings.HasPrefix(class, "system/") || strings.HasPrefix(class, "conn/")
+	if strings.HasPrefix(class, "event/") || strings.HasPrefix(class, "system/") || strings.HasPrefix(class, "conn/") {
+		// a malformed event does nothing: in particular it makes the gateway ask the
+		// services nothing (an answer, by contrast, also ends a wait and may release
+		// requests that were queued behind it)
+		for _, e := range log[start:] {
+			if e.Kind == "mq_req" {
+				m.viols = append(m.viols, Violation{Property: "C15", Class: "malformed_message_caused_request", Step: step, Conn: -1, T: e.T,
+					Message: fmt.Sprintf("the malformed message (%s) %q made the gateway request %s %s", class, trunc(op.P, 120), e.Subject, trunc(string(e.Payload), 120))})
+				break
+			}
+		}
+	}
 	if class == "get/answer" {
 		// a malformed answer to a first get makes an error entry for that request; it
 		// must not touch what is already loaded (such as the resource another
@@ -257,7 +269,7 @@ var badSystem = []string{`garbage`, `{"resources":5}`, `{"resources":[5]}`, `{"a
 var badFrames = []string{`garbage`, `[]`, `5`, `"x"`, `{}`, `{"id":-1,"method":"get.t.a"}`, `{"id":1.5,"method":"get.t.a"}`, `{"id":"1","method":"get.t.a"}`, `{"id":99999999999999999999999,"method":"get.t.a"}`,
 	`{"method":"get.t.a"}`, `{"id":null,"method":"subscribe.t.a"}`, `{"id":77,"method":5}`, `{"id":78,"method":"subscribe.t.a","params":"x"}`, `{"id":79,"method":"unsubscribe.t.a","params":[1]}`, `{"id":80,"method":"version","params":5}`,
 	`{"id":81,"method":"version","params":{"protocol":5}}`, `{"id":82,"method":"version","params":{"protocol":"1.x.3"}}`, `{"id":83,"method":"version","params":{"protocol":"999.0.0"}}`, `{"id":84,"method":"call.t.a.set","params":{"a":`, "\x00\xff", `{"id":85}`, `{"id":86,"method":null}`}
-var badToken = []string{`garbage`, `{"token":}`, `[]`, `{"tid":5}`, `5`, `{"token":{"a":1},"tid":[1]}`}
+var badToken = []string{`garbage`, `{"token":}`, `[]`, `{"tid":5}`, `5`, `{"token":{"a":1},"tid":[1]}`, ``, ` `, `{"token":null,"tid":{}}`, `"tok"`, `nul`}
 
 // Values of the two kinds, used to build malformed payloads by construction: a
 // message with any number of well-formed parts and exactly one malformed part
